@@ -243,6 +243,18 @@ def _key_expr_ok(node, comp_vars=()):
         return _key_expr_ok(node.elt, comp_vars)
     if isinstance(node, ast.Constant) and isinstance(node.value, int):
         return True, None, False
+    if isinstance(node, ast.IfExp):
+        # a choice between two admissible keys by the CLASS of an operand (tape vs plain number) is admissible
+        t = node.test
+        if isinstance(t, ast.UnaryOp) and isinstance(t.op, ast.Not):
+            t = t.operand
+        if not (isinstance(t, ast.Call) and call_name(t) == "isinstance"):
+            return False, node.test, False
+        for arm in (node.body, node.orelse):
+            r = _key_expr_ok(arm, comp_vars)
+            if not r[0]:
+                return r
+        return True, None, False
     if isinstance(node, ast.Attribute):
         if node.attr == "_keys":
             return True, None, False
@@ -252,7 +264,7 @@ def _key_expr_ok(node, comp_vars=()):
     return False, node, False
 
 
-@rule("C10.key-provenance", props=["C10"], min_instances=8, mutants=[
+@rule("C10.key-provenance", props=["C10"], min_instances=6, mutants=[
     ("key includes the value type", ("operator_dict", "keys_out, func = self[mv.keys()]", "keys_out, func = self[mv.keys(), type(mv.values()[0])]")),
     ("key includes issymbolic", ("operator_dict", "        keys_out, func = self[mv1.keys(), mv2.keys()]", "        keys_out, func = self[mv1.keys(), mv2.keys(), mv1.issymbolic]")),
 ], rewrites=[
@@ -261,7 +273,7 @@ def _key_expr_ok(node, comp_vars=()):
 def key_provenance(ctx):
     """Every cache lookup key is built from operand key tuples only (DEP)."""
     for q in LOOKUP_FUNCS:
-        fn = ctx.func(q)
+        fn = inline_self_calls(ctx.repo, q.rsplit(".", 1)[0], ctx.func(q))
         defs = single_assignments(fn)
         found = 0
         for n in walk_shallow(fn):
